@@ -26,6 +26,9 @@ class Init(Contract):
     extra = ()                  # further clause texts
     uses_loop = False
     varargs = 0                 # number of positional (*upstreams) arguments: opaque, pairwise distinct streams
+    method = '__init__'
+    self_fields = ()            # opaque attributes the object already has (for methods other than __init__)
+    self_refs = ()              # attributes that are objects with methods
     positional = False          # pass `params` positionally, in the documented order (the signature order is part of the API)
     base = 'Stream'             # the base constructor that must be called
     props = ['C01']
@@ -33,7 +36,7 @@ class Init(Contract):
                    'functions of their arguments (their own contracts: c_loop.py Stream.__init__, bounded check of convert_interval)',)
 
     def __init__(self):
-        self.qual = '%s.__init__' % self.cls
+        self.qual = '%s.%s' % (self.cls, self.method)
         self.name = getattr(self, 'name', None) or self.qual
         Contract.__init__(self)
 
@@ -43,7 +46,11 @@ class Init(Contract):
         g = st.ghost
         g['base_init'] = VTuple([])
         g['callbacks'] = VTuple([])
-        selfv = st.new_obj(self.cls, {})
+        f0 = {n: VElem(z3.Const('self_' + n, sym.Elem)) for n in self.self_fields}
+        for n in self.self_refs:
+            f0[n] = VRef(z3.Const('self_' + n, sym.Obj), 'Obj_' + n)
+        selfv = st.new_obj(self.cls, f0)
+        g['recorded'] = VTuple([])
         args = {}
         for p in self.params:
             if p.endswith(':int'):
@@ -76,7 +83,8 @@ class Init(Contract):
     def globals(self):
         return {'gen': VBuiltin('gen'), 'asyncio': VBuiltin('asyncio'), 'no_default': VStr('--no-default--'),
                 'identity': VBuiltin('identity'), 'Queue': VBuiltin('Queue'), 'defaultdict': VBuiltin('defaultdict'),
-                'Condition': VBuiltin('Condition')}
+                'Condition': VBuiltin('Condition'), 'core': VBuiltin('core'), 'get_stream_type': VBuiltin('get_stream_type'),
+                'Streaming': VBuiltin('Streaming')}
 
     def summaries(self):
         def base_init(I, recv, args, kwargs):
@@ -113,7 +121,18 @@ class Init(Contract):
 
     def spec_funcs(self):
         def call_default(I, kind, name, recv, args, kwargs):
-            return herbrand(I, name.split('.')[-1] if kind != 'builtin' else name, recv if kind == 'method' else None, args, kwargs)
+            short = name.split('.')[-1] if kind != 'builtin' else name
+            v = herbrand(I, short, recv if kind in ('method', 'apply') else None, args, kwargs)
+            g = I.st.ghost
+            g['recorded'] = VTuple(g['recorded'].items + [VTuple([VStr(short), v])])
+            return v
+
+        def recorded(I, name):
+            hits = [it.items[1] for it in I.st.ghost['recorded'].items if it.items[0].s == name.s]
+            return hits[0] if len(hits) == 1 else VStr('--%d calls of %s--' % (len(hits), name.s))
+
+        def call_m(I, name, recv, *args, **kwargs):
+            return herbrand(I, name.s, recv, list(args), kwargs)
 
         def call_(I, name, *args, **kwargs):
             return herbrand(I, name.s, None, list(args), kwargs)
@@ -150,7 +169,7 @@ class Init(Contract):
         def maxlen(I, v):
             c = I.st.list_cell(v.loc)
             return VInt(c.maxlen) if c.maxlen is not None else NONE
-        return {'call_default': call_default, 'call': call_, 'base_arg': base_arg, 'base_kw_names': base_kw_names, 'is_cb': is_cb,
+        return {'call_default': call_default, 'call': call_, 'call_m': call_m, 'recorded': recorded, 'base_arg': base_arg, 'base_kw_names': base_kw_names, 'is_cb': is_cb,
                 'empty': empty, 'maxlen': maxlen}
 
     def clauses(self):
@@ -160,22 +179,24 @@ class Init(Contract):
                              text='self.%s == %s' % (f, text) if not text.startswith('?') else text[1:]))
         for i, text in enumerate(self.extra):
             cl.append(Clause('%s.init_%d' % (self.props[0], i), list(self.props), when='return', text=text))
-        cl.append(Clause('%s.base_constructor_called_exactly_once' % self.props[0], list(self.props), when='return',
-                         text='len(base_init) == 1'))
+        if self.method == '__init__':
+            cl.append(Clause('%s.base_constructor_called_exactly_once' % self.props[0], list(self.props), when='return',
+                             text='len(base_init) == 1'))
         if self.uses_loop:
             cl.append(Clause('%s.forwarding_coroutine_scheduled_once_on_the_loop' % self.props[0], list(self.props), when='return',
                              text='len(callbacks) == 1 and is_cb(callbacks[0])'))
         return cl
 
 
-def mk(cls_, params_, fields_, props_, kw_=(), extra_=(), uses_loop_=False, varargs_=0, tag='', positional_=False, file_=None):
-    d = {}
+def mk(cls_, params_, fields_, props_, kw_=(), extra_=(), uses_loop_=False, varargs_=0, tag='', positional_=False, file_=None,
+       method_='__init__', self_fields_=(), self_refs_=()):
+    d = {'method': method_, 'self_fields': tuple(self_fields_), 'self_refs': tuple(self_refs_)}
     if file_:
-        d = {'file': file_, 'files': [file_, CORE]}
+        d.update({'file': file_, 'files': [file_, CORE]})
     return type('Init_' + cls_ + tag, (Init,), dict(d, **{'cls': cls_, 'params': tuple(params_), 'fields': dict(fields_), 'props': list(props_),
                                                 'positional': positional_,
                                                 'kw': tuple(kw_), 'extra': tuple(extra_), 'uses_loop': uses_loop_, 'varargs': varargs_,
-                                                'name': '%s.__init__%s' % (cls_, ('[%s]' % tag.strip('_')) if tag else '')}))
+                                                'name': '%s.%s%s' % (cls_, method_, ('[%s]' % tag.strip('_')) if tag else '')}))
 
 
 ALL = [
@@ -215,6 +236,12 @@ ALL = [
     mk('accumulate', ['upstream', 'func', 'start', 'returns_state'],
        {'func': 'func', 'state': 'start', 'returns_state': 'returns_state', 'with_state': 'kw_with_state'}, ['C20', 'C12'],
        kw_=['with_state'], tag='_dask_positional', positional_=True, file_='streamz/dask.py'),
+    mk('collect', ['upstream'], {}, ['C01', 'C05'], extra_=['empty(self.cache) and empty(self.metadata_cache)', 'base_arg(0) == upstream']),
+    # streamz/collection.py: start / returns_state are taken out of **kwargs and handed to Stream.accumulate by keyword; everything
+    # else the caller passed (with_state, agg=..., window=...) travels on inside **kwargs (C12: the plumbing of checkpoint / resume)
+    mk('Streaming', ['func'], {}, ['C12', 'C06'], kw_=['start', 'returns_state', 'example', 'stream_type'], positional_=True,
+       method_='accumulate_partitions', file_='streamz/collection.py', self_fields_=['example', '_stream_type'], self_refs_=['stream'],
+       extra_=["recorded('accumulate') == call_m('accumulate', self.stream, func, start=kw_start, returns_state=kw_returns_state, **'__kwargs__')"]),
     mk('combine_latest', [], {'_initial_emit_on': 'None'}, ['C01', 'C15'], varargs_=2, tag='_emit_on_not_given',
        extra_=['list(self.emit_on) == [up0, up1]', 'len(self.last) == 2 and len(self.metadata) == 2',
                'up0 in self.missing and up1 in self.missing']),
